@@ -233,6 +233,28 @@ def shrink(case):
         yield dict(case, spec=dict(spec, arcs=spec["arcs"][:i] + spec["arcs"][i + 1:]))
 
 
+def same_route_reply(a, b):
+    """`<check_route reply> <add_route reply>` of the code and of the model: both raise or both return (which exception is not part of
+    the property); the same admission flag; the same cost when the route is ACCEPTED (the partial cost reported with a rejection is
+    incidental); the same stored flag"""
+    ta, tb = a.split(), b.split()
+    if len(ta) != 2 or len(tb) != 2:
+        return a == b
+    for x, y, is_check in ((ta[0], tb[0], True), (ta[1], tb[1], False)):
+        if core.err_class(x) != core.err_class(y) and (core.err_class(x) == "raised" or core.err_class(y) == "raised"):
+            return False
+        if core.err_class(x) == "raised":
+            continue
+        px, py = x.split(":"), y.split(":")
+        if px[1] != py[1]:
+            return False
+        if is_check and px[1] == "1" and px[2] != py[2]:
+            return False
+        if not is_check and px[2] != py[2]:
+            return False
+    return True
+
+
 def stop_tok(x):
     return f"i:{x}" if isinstance(x, int) else f"n:{x}"
 
@@ -313,7 +335,13 @@ def run_case(case, drv):
             res.fail("route:aliases-caller-list", f"the stored pool changed when the caller re-used the list it had passed to add_route ({route})")
             o.routes[:] = [list(r) for r in pool_after]
         line = f"{chk} {add}"
-        if idx < len(mres) and line != mres[idx]:
+        unset = g["cap"] is None or g["init"] is None
+        if unset:
+            # without vehicle data the property only excludes an acceptance (raise or reject, early or late: incidental)
+            ok_ = idx >= len(mres) or all(core.err_class(t) == "raised" or t.split(":")[1] == "0" for t in line.split() + mres[idx].split())
+            if not ok_:
+                res.disagree(f"route #{idx} {route} (vehicle data unset)", line, mres[idx])
+        elif idx < len(mres) and not same_route_reply(line, mres[idx]):
             res.disagree(f"route #{idx} {route}", line, mres[idx])
         if g["cap"] is None or g["init"] is None:
             # vehicle data unset: the code raises TypeError when it reaches the load arithmetic and rejects routes that fail earlier
